@@ -184,6 +184,65 @@ def big_checks(seed):
     return out
 
 
+def _ds_storage(labels, C, storage):
+    """the same labels held in a narrow integer dtype and handed out by the bulk accessor as they are stored (numpy / torch);
+    the per-sample accessor returns python ints - a wrapper has to select the same samples whatever the storage is"""
+    import numpy as np
+    import torch
+    from kappadata.datasets.kd_dataset import KDDataset
+    store = {"np.uint8": lambda: np.asarray(labels, dtype=np.uint8), "np.int16": lambda: np.asarray(labels, dtype=np.int16),
+             "torch.uint8": lambda: torch.tensor(labels, dtype=torch.uint8), "torch.int64": lambda: torch.tensor(labels, dtype=torch.int64),
+             "np.int64": lambda: np.asarray(labels, dtype=np.int64)}[storage]()
+
+    class D(KDDataset):
+        def __len__(self): return len(labels)
+        def getitem_class(self, idx, ctx=None): return int(labels[idx])
+        def getall_class(self): return store
+        def getshape_class(self): return (C,)
+    return D()
+
+
+def storage_checks(seed):
+    """class-based wrappers over 120 samples / 4 classes whose labels are stored in narrow dtypes (products such as
+    class * len(dataset) do not fit uint8 / int16 index arithmetic done in the label dtype)"""
+    from kappadata.wrappers.dataset_wrappers.sort_by_class_wrapper import SortByClassWrapper
+    from kappadata.wrappers.dataset_wrappers.intra_class_shuffle_wrapper import IntraClassShuffleWrapper
+    from kappadata.wrappers.dataset_wrappers.oversampling_wrapper import OversamplingWrapper
+    from kappadata.wrappers.dataset_wrappers.class_filter_wrapper import ClassFilterWrapper
+    out = []
+    rng = random.Random(seed + 11)
+    n, C = 120, 4
+    labels = [rng.choice([0, 1, 1, 2, 3, 3, 3]) for _ in range(n)]
+    for storage in ("np.uint8", "np.int16", "torch.uint8", "torch.int64", "np.int64"):
+        try:
+            ds = _ds_storage(labels, C, storage)
+            got = idx(SortByClassWrapper(ds))
+            if got != sorted(range(n), key=lambda i: labels[i]):
+                out.append({"what": "sort by class is not the stable sort by class", "wrapper": "SortByClass", "storage": storage, "n": n}); break
+            got = idx(IntraClassShuffleWrapper(ds, seed=seed))
+            if sorted(got) != list(range(n)) or [labels[i] for i in got] != labels:
+                out.append({"what": "intra-class shuffle is not a permutation keeping the per-position class sequence",
+                            "wrapper": "IntraClassShuffle", "storage": storage}); break
+            got = idx(ClassFilterWrapper(ds, valid_classes=[1, 3]))
+            if got != [i for i in range(n) if labels[i] in (1, 3)]:
+                out.append({"what": "class filter does not keep precisely the allowed classes in original order", "wrapper": "ClassFilter",
+                            "storage": storage}); break
+            for mode in ("multiply", "exact"):
+                got = idx(OversamplingWrapper(ds, mode=mode))
+                cnt = Counter(labels[i] for i in got)
+                base = Counter(labels)
+                mx = max(base.values())
+                want = {c: (mx if mode == "exact" else base[c] * max(1, mx // base[c])) for c in base}
+                if got[:n] != list(range(n)) and mode == "multiply" or dict(cnt) != want or not set(range(n)) <= set(got):
+                    out.append({"what": f"oversampling ({mode}) does not keep every sample / reach the documented class balance",
+                                "wrapper": "Oversampling", "storage": storage, "expected": want, "observed": dict(cnt)}); break
+            if out:
+                break
+        except Exception as ex:
+            out.append({"what": f"{type(ex).__name__}: {str(ex)[:120]}", "storage": storage}); break
+    return out
+
+
 LAYOUTS = [([0], 1), ([0, 1], 2), ([0, 0, 2], 3), ([1, 0, 1, 2, 2, 0, 1], 3), ([0, 0, 0, 1], 2), ([2, 2, 1, 1, 0, 0, 3], 5), ([0, -1, 1, 1, -1], 2)]
 
 
@@ -192,6 +251,11 @@ def search(limit, seed):
     r = big_checks(seed)
     if r:
         r[0]["input"] = {"layout": "40 samples / 3 classes; 70 samples / 1000 classes", "seed": seed}
+        return r[0], n
+    n += 1
+    r = storage_checks(seed)
+    if r:
+        r[0]["input"] = {"layout": "120 samples / 4 classes, labels stored as " + str(r[0].get("storage")), "seed": seed}
         return r[0], n
     for labels, C in LAYOUTS[:limit]:
         for s in (seed, seed + 3):
